@@ -803,6 +803,10 @@ class QSerialization(DeconstructedSerialization):
         Q.AND: ' & ',
     }
 
+    if hasattr(Q, 'XOR'):
+        # Django >= 4.1
+        child_separators[Q.XOR] = ' ^ '
+
     @classmethod
     def serialize_to_signature(cls, q):
         """Serialize a Q object to JSON-compatible signature data.
@@ -867,7 +871,7 @@ class QSerialization(DeconstructedSerialization):
 
         if num_children == 0:
             result.append('models.Q()')
-        elif num_children == 1:
+        elif num_children == 1 and isinstance(value.children[0], tuple):
             child = value.children[0]
 
             result.append('models.Q(%s=%s)' % (child[0],
@@ -887,7 +891,8 @@ class QSerialization(DeconstructedSerialization):
                                     % (type(child), child))
 
             if len(children) == 1:
-                result.append(children)
+                # This is a Q() wrapping a single nested Q().
+                result.append('models.Q(%s)' % children[0])
             elif len(children) > 1:
                 result.append(
                     '(%s)'
